@@ -11,19 +11,22 @@ for d in sorted(os.listdir(os.path.join(V, "seeded"))):
     m = json.load(open(mp))
     r = res.get(d, {})
     # latest result: prefer plain quick, else any
-    key = "quick" if "quick" in r else (sorted(r)[0] if r else None)
+    # a full quick run is preferred; a restricted re-run (quick+<harness filter>) replaces a full run
+    # that ended inconclusive under overload or predates a rebased patch
+    caught = [k for k in sorted(r) if r[k].get("exit") == 1]
+    key = ("quick" if "quick" in caught else caught[0]) if caught else ("quick" if "quick" in r else (sorted(r)[0] if r else None))
     out = r.get(key, {}) if key else {}
     if not out:
         verdict, by = "not run", ""
     elif out.get("exit") == 1:
-        verdict = "caught (VIOLATION, replayed natively)"
+        verdict = "caught (VIOLATION, replayed natively)" if key.startswith("quick") else "caught by THOROUGH tier only (VIOLATION, replayed natively)"
         by = ", ".join(sorted(set(re.sub(r".*replay/C\d+-", "", v).replace(".json", "") for v in out.get("violations", []))))[:150]
     elif out.get("exit") == 0:
         verdict, by = "MISSED", ""
     else:
         verdict = "inconclusive (exit 2)"
         by = "; ".join(out.get("inconclusive", []))[:120]
-    rows.append("| %s | %s | %s | %s | %s |" % (d, m.get("property"), (m.get("needs_to_manifest") or "")[:110].replace("|", "/"), verdict + (" [%s]" % key if key and key != "quick" else ""), by))
+    rows.append("| %s | %s | %s | %s | %s |" % (d, m.get("property"), (m.get("needs_to_manifest") or "")[:110].replace("|", "/"), verdict + (" [%s]" % key if key and key != "quick" and key.startswith("quick") else ""), by))
 txt = ("## 3. Seeded changes (sub-agents, property text only)\n\n"
        "Each change was produced by a fresh sub-agent that saw only the property text and a scratch worktree, and was kept only after I\n"
        "confirmed (engine/seed_confirm.sh) that it compiles, keeps the pinned suite green, and that its demonstration fails with it and\n"
